@@ -25,6 +25,12 @@ Inductive case :=
 | CaseLab (mode max_out max_int : N) (fam p1 p2 : N) (qmin edns resolvable : bool)
           (packets led_out led_int nq first : N) (rcode ede : N)
           (packets2 rcode2 ede2 : N)
+  (* [k] clients with an outbound budget of [tiny] ([over] of them ended over budget) on one resolver, then
+     an independent client with an ample budget: its reply, and the reply a fresh resolver gives it *)
+| CaseCrowd (k tiny over : N) (reply_after reply_fresh : list N)
+  (* MustRecursionWorkPolicyFromConfig: mode text, configured limits -> panicked? / policy, and how many of
+     260 debits per aggregate kind (outbound, internal, signature, DS digest, NSEC3 hash) a ledger made from it accepts *)
+| CasePolicy (mode_text : N) (lims : list N) (panicked : bool) (pol : policy) (accepted : list N)
   (* dnssec.VerifyRRSIGWithWork under the real work adapter: RRsets -> signatures (candidates, genuine index)
      in processing order; verdict 0 verified / 1 work error of [ekind] / 2 ordinary failure *)
 | CaseSig (mode K Rl St : N) (sets : list (list (nat * option nat)))
@@ -103,6 +109,18 @@ Definition check_case (c : case) : bool :=
         (negb edns || (ede =? 1 + (if go_RecursionWorkKind_isDNSSEC (first - 1) then 9 else ede_other)))))
   | CaseLabEq fam p1 p2 qmin reply_off reply_shadow packets_off packets_shadow =>
       list_eqb N.eqb reply_off reply_shadow
+  | CaseCrowd k tiny over reply_after reply_fresh =>
+      (* budget failures are request-local: nothing the over-budget trees left behind changes a later reply *)
+      list_eqb N.eqb reply_after reply_fresh
+  | CasePolicy mode_text lims panicked pol accepted =>
+      match policy_of_config mode_text lims with
+      | None => panicked
+      | Some p =>
+        negb panicked && policy_eqb p pol &&
+        list_eqb N.eqb accepted
+          (map (fun lim => if p_mode p =? mode_enforce then N.min 260 lim else 260)
+               [p_max_out p; p_max_int p; p_max_sig p; p_max_ds p; p_max_n3 p])
+      end
   | CaseSig mode K Rl St sets verdict ekind ops exh first bound =>
       let pol := mk_T_RecursionWorkPolicy mode 128 32 K Rl St 32 32 32 in
       let '(l, r) := verify_rrsets (new_ledger pol) sets in
@@ -176,6 +194,15 @@ Definition spec_case (c : case) : bool :=
           (negb resolvable || negb (ede2 =? 1 + 13))))))
   | CaseLabEq fam p1 p2 qmin reply_off reply_shadow packets_off packets_shadow =>
       list_eqb N.eqb reply_off reply_shadow
+  | CaseCrowd k tiny over reply_after reply_fresh => list_eqb N.eqb reply_after reply_fresh
+  | CasePolicy mode_text lims panicked pol accepted =>
+      (* an unknown mode is refused; in enforce mode a tree never gets more units of a kind than the
+         operator configured for it (an omitted limit, 0, is unconstrained here) *)
+      if 3 <? mode_text then panicked
+      else negb panicked &&
+           (negb (mode_text =? 3) ||
+            forallb (fun ia => let '(i, a) := ia in let c := nth i lims 0 in (c =? 0) || (a <=? c))
+                    (combine [0; 1; 4; 5; 6]%nat accepted))
   | CaseSig mode K Rl St sets verdict ekind ops exh first bound =>
       (* enforce: public-key operations stay within the tree budget and within what the per-RRset
          and per-signature allowances admit for this shape; shadow never stops on a budget *)
